@@ -3,7 +3,7 @@ import ast
 
 from ..repo import AnalysisError
 from ..report import Ob, RuleSpec
-from ..astutil import (src, flat_guards, calls_in, call_name, kwarg, const_value,
+from ..astutil import (flatten_guard, src, flat_guards, calls_in, call_name, kwarg, const_value,
                        iter_own_nodes, ancestors, is_within)
 from ..cfg import cfg_of, Prov
 from .. import variants as V
@@ -271,9 +271,14 @@ def r6_candidates(repo):
     if len(comps) == 1:
         c = comps[0]
         v = src(c.generators[0].target)
-        cond = " ".join(src(c.generators[0].ifs[0]).split()) if len(c.generators[0].ifs) == 1 else ""
-        want = "%s.is_omittable() and (not (isinstance(%s, tda.DeclarationNode) and %s.decl.name == tda.RET))" % (v, v, v)
-        ok = cond == want and src(c.generators[0].iter) == "type_graph.keys()" and src(c.elt) == v
+        # the conjuncts of the filter, whatever their grouping / order (a guard-clause loop folds into separate tests)
+        conj = set()
+        for i_ in c.generators[0].ifs:
+            for t_, p_ in flatten_guard(i_, True):
+                conj.add(("" if p_ else "not ") + " ".join(src(t_).split()))
+        cond = " and ".join(sorted(conj))
+        want = {"%s.is_omittable()" % v, "not isinstance(%s, tda.DeclarationNode) and %s.decl.name == tda.RET" % (v, v)}
+        ok = conj == want and src(c.generators[0].iter) in ("type_graph.keys()", "type_graph") and src(c.elt) == v
         msg = "candidates = omittable graph nodes minus the virtual return declaration; condition `%s`" % cond
     obs = [Ob("C04-R6", "candidate-nodes", _w(f), ok, msg)]
     vf = repo.method(TO, "visit_func_decl", inherited=False)
